@@ -9,6 +9,48 @@ SIZES = [1, 2, 4, 8, 16, 32, 64]
 TRAITS = ["as_integer_t", "as_unsigned_integer_t", "as_float_t"]
 
 
+POS_IN = ("template <class L, class A> struct pos_in; template <class A, class... R> struct pos_in<xsimd::arch_list<A, R...>, A> { static constexpr unsigned long value = 0; };"
+          " template <class H, class... R, class A> struct pos_in<xsimd::arch_list<H, R...>, A> { static constexpr unsigned long value = 1 + pos_in<xsimd::arch_list<R...>, A>::value; };"
+          " template <class A> struct pos_in<xsimd::arch_list<>, A> { static constexpr unsigned long value = 1000; };")
+
+
+def order_tu_lines():
+    """extern "C" functions exposing, per architecture, its position in the best-first lists and its base classes (shared with C15)"""
+    tu = ["struct row { unsigned long pos_all, pos_sup, base[%d], pos_other[%d]; };" % (len(ORDER), len(ORDER)), POS_IN]
+    for i, a in enumerate(ORDER):
+        A = ARCHS[a][0]
+        body = ["r->pos_all = pos_in<xsimd::all_x86_architectures, %s>::value; r->pos_sup = pos_in<xsimd::supported_architectures, %s>::value;" % (A, A)]
+        for j, b in enumerate(ORDER):
+            body.append("r->base[%d] = std::is_base_of<%s, %s>::value; r->pos_other[%d] = pos_in<xsimd::all_x86_architectures, %s>::value;" % (j, ARCHS[b][0], A, j, ARCHS[b][0]))
+        tu.append('extern "C" void geom_row_%d(row* r) { %s }' % (i, " ".join(body)))
+    tu.append("struct lists { unsigned long best_is_head, list_align[4], list_align_expect[4]; };")
+    body = ["l->best_is_head = std::is_same<xsimd::best_arch, xsimd::supported_architectures::best>::value && pos_in<xsimd::supported_architectures, xsimd::best_arch>::value == 0;"]
+    al_lists = [["sse2", "avx"], ["avx512f", "sse4_2", "avx2"], ["sse2"], ["avx2", "fma3_sse"]]
+    for k, l in enumerate(al_lists):
+        body.append("l->list_align[%d] = xsimd::arch_list<%s>::alignment(); l->list_align_expect[%d] = %d;" % (k, ", ".join(ARCHS[a][0] for a in l), k, max(ARCHS[a][1] // 8 for a in l)))
+    tu.append('extern "C" void geom_lists(lists* l) { %s }' % " ".join(body))
+    return tu
+
+
+def order_contract(name, P):
+    """-> (ensures list, title) for geom_row_<i> / geom_lists"""
+    ens = []
+    if name.startswith("geom_row_"):
+        i = int(name[9:])
+        n = len(ORDER)
+        ens.append("(*%s).f0 == %d && (*%s).f1 == %d" % (P, i, P, i))   # best-first order; every x86 architecture is supported in this build
+        for k in range(n):
+            ens.append("(*%s).f3.e[%d] == %d" % (P, k, k))
+            if i != k:
+                # an extension parent (base class) appears after the architecture in the best-first list
+                ens.append("(!(*%s).f2.e[%d] || (*%s).f3.e[%d] > (*%s).f0)" % (P, k, P, k, P))
+        return ens, "position and parents of %s in all_x86_architectures / supported_architectures" % ARCHS[ORDER[i]][0]
+    ens.append("(*%s).f0 == 1" % P)
+    for k in range(4):
+        ens.append("(*%s).f1.e[%d] == (*%s).f2.e[%d]" % (P, k, P, k))
+    return ens, "best_arch heads supported_architectures; arch_list::alignment() is the maximum member alignment"
+
+
 def run(tier, seed):
     rep = check.Report("C20", tier, seed)
     wd = os.path.join(BUILD, "run_C20_%d" % os.getpid())
@@ -22,7 +64,6 @@ def run(tier, seed):
           "template <> struct lanes_of<void> { static constexpr size_t value = 0; };",
           "struct geom { unsigned long size[10], bsize[10], csize[2], regbytes[10], alignment, requires_alignment, is_batch[10], scalar_w[10], mask_lanes[10], ret_lanes[10]; };",
           "struct sized { unsigned long lanes[10][7]; };",
-          "struct lists { unsigned long best_is_head, list_align[4], list_align_expect[4]; };",
           "struct traits { unsigned long w[10][3]; };"]
     tids = ALL_TYPES
     for a in archs:
@@ -50,21 +91,7 @@ def run(tier, seed):
             else:
                 body.append("t->w[%d][%d] = sizeof(xsimd::%s<%s>);" % (i, k, tr, TYPES[t][0]))
     tu.append('extern "C" void geom_traits(traits* t) { %s }' % " ".join(body))
-    tu.append("template <class L, class A> struct pos_in; template <class A, class... R> struct pos_in<xsimd::arch_list<A, R...>, A> { static constexpr unsigned long value = 0; };"
-              " template <class H, class... R, class A> struct pos_in<xsimd::arch_list<H, R...>, A> { static constexpr unsigned long value = 1 + pos_in<xsimd::arch_list<R...>, A>::value; };"
-              " template <class A> struct pos_in<xsimd::arch_list<>, A> { static constexpr unsigned long value = 1000; };")
-    tu.append("struct row { unsigned long pos_all, pos_sup, base[%d], pos_other[%d]; };" % (len(ORDER), len(ORDER)))
-    for i, a in enumerate(ORDER):
-        A = ARCHS[a][0]
-        body = ["r->pos_all = pos_in<xsimd::all_x86_architectures, %s>::value; r->pos_sup = pos_in<xsimd::supported_architectures, %s>::value;" % (A, A)]
-        for j, b in enumerate(ORDER):
-            body.append("r->base[%d] = std::is_base_of<%s, %s>::value; r->pos_other[%d] = pos_in<xsimd::all_x86_architectures, %s>::value;" % (j, ARCHS[b][0], A, j, ARCHS[b][0]))
-        tu.append('extern "C" void geom_row_%d(row* r) { %s }' % (i, " ".join(body)))
-    body = ["l->best_is_head = std::is_same<xsimd::best_arch, xsimd::supported_architectures::best>::value && pos_in<xsimd::supported_architectures, xsimd::best_arch>::value == 0;"]
-    al_lists = [["sse2", "avx"], ["avx512f", "sse4_2", "avx2"], ["sse2"], ["avx2", "fma3_sse"]]
-    for k, l in enumerate(al_lists):
-        body.append("l->list_align[%d] = xsimd::arch_list<%s>::alignment(); l->list_align_expect[%d] = %d;" % (k, ", ".join(ARCHS[a][0] for a in l), k, max(ARCHS[a][1] // 8 for a in l)))
-    tu.append('extern "C" void geom_lists(lists* l) { %s }' % " ".join(body))
+    tu += order_tu_lines()
     bc, fnmap, tsec = pipeline.compile_tu(wd, "c20", "\n".join(tu) + "\n")
     targets = ["geom_%s" % a for a in archs] + ["geom_sized", "geom_traits", "geom_lists"] + ["geom_row_%d" % i for i in range(len(ORDER))]
     jobs = [{"target": t, "out": os.path.join(wd, t + ".c")} for t in targets]
@@ -104,21 +131,9 @@ def run(tier, seed):
                 w = TYPES[t][2] // 8
                 ens.append(" && ".join("(*%s).f0.e[%d].e[%d] == %d" % (P, i, k, w) for k in range(3)))
             title, where = "as_integer / as_unsigned_integer / as_float traits", "include/xsimd/types/xsimd_utils.hpp"
-        elif name.startswith("geom_row_"):
-            i = int(name[9:])
-            n = len(ORDER)
-            ens.append("(*%s).f0 == %d && (*%s).f1 == %d" % (P, i, P, i))   # best-first order; every x86 architecture is supported in this build
-            for k in range(n):
-                ens.append("(*%s).f3.e[%d] == %d" % (P, k, k))
-                if i != k:
-                    # an extension parent (base class) appears after the architecture in the best-first list
-                    ens.append("(!(*%s).f2.e[%d] || (*%s).f3.e[%d] > (*%s).f0)" % (P, k, P, k, P))
-            title, where = "position and parents of %s in all_x86_architectures / supported_architectures" % ARCHS[ORDER[i]][0], "include/xsimd/config/xsimd_arch.hpp"
         else:
-            ens.append("(*%s).f0 == 1" % P)
-            for k in range(4):
-                ens.append("(*%s).f1.e[%d] == (*%s).f2.e[%d]" % (P, k, P, k))
-            title, where = "best_arch heads supported_architectures; arch_list::alignment() is the maximum member alignment", "include/xsimd/config/xsimd_arch.hpp"
+            ens, title = order_contract(name, P)
+            where = "include/xsimd/config/xsimd_arch.hpp"
         chunks = [" && ".join(ens[i:i + 12]) for i in range(0, len(ens), 12)]
         c = "#define CONTRACT_%s \\\n" % name + "".join("  __CPROVER_ensures(%s) \\\n" % e for e in chunks) + "  __CPROVER_assigns(*%s)\n" % P
         h = "void harness(void) { %s O; %s(&O); __CPROVER_assert(0, \"canary: end of harness is reachable\"); }\n" % (ST, name)
